@@ -223,6 +223,16 @@ class CSemantics:
 
         # Determine if we need implicit init levels:
         target_typ = init_cursor.at_typ()
+        if isinstance(value, expressions.StringLiteral) and (
+            target_typ.is_array
+            and target_typ.element_type.is_integer
+            and self.context.sizeof(target_typ.element_type) == 1
+        ):
+            # A character array member initialized by a string:
+            value = self.on_string_initializer(
+                target_typ, value.value, value.location
+            )
+
         while not self.equal_types(value.typ, target_typ):
             # If we are at a complex type, implicit descend otherwise cast:
             if target_typ.is_compound:
@@ -243,6 +253,32 @@ class CSemantics:
             )
             self.warning("previously defined here.", previous_value.location)
         init_cursor.set_value(value)
+
+    def on_string_initializer(self, typ, value: str, location):
+        """An array of characters is initialized by a string.
+
+        The characters of the string, and the terminating zero when there
+        is room for it or the array has no size yet, become the initial
+        values of the array elements (C99 6.7.8p14).
+        """
+        characters = [ord(c) for c in value]
+        if typ.size is None:
+            characters.append(0)
+        else:
+            size = self.eval_expr(typ.size)
+            if len(characters) > size:
+                self.warning(
+                    "String initializer is too long for the array", location
+                )
+                characters = characters[:size]
+            elif len(characters) < size:
+                characters.append(0)
+
+        values = [
+            expressions.CharLiteral(c, self.char_type, location)
+            for c in characters
+        ]
+        return expressions.ArrayInitializer(typ, values, location)
 
     def on_array_designator(self, init_cursor, index, location):
         """Handle array designator."""
